@@ -22,6 +22,11 @@ class HarnessTimeout(Exception):
     pass
 
 
+class Abandoned(BaseException):
+    """raised inside a scheduled thread when its schedule ended in a deadlock: the thread unwinds instead of staying
+    blocked for ever (thousands of deadlocking schedules would otherwise exhaust the process's thread limit)"""
+
+
 class Sched(object):
     def __init__(self, schedule, remote_file):
         self.schedule = list(schedule)
@@ -36,12 +41,26 @@ class Sched(object):
         self.closes = 0
         self.max_live = 0
         self.preempt_lines = set()
+        self.abandoned = False
 
     # ---- called from worker threads
     def yield_point(self):
+        if self.abandoned:
+            raise Abandoned()
         st = self.threads[_tls.tid]
         self.back.release()
         st['go'].acquire()
+        if self.abandoned:
+            raise Abandoned()
+
+    def abandon(self):
+        """let every unfinished thread unwind (after a deadlock); their exceptions are not part of the verdict"""
+        self.abandoned = True
+        left = [st for st in self.threads.values() if not st['done']]
+        for st in left:
+            st['go'].release()
+        for st in left:
+            self.back.acquire(timeout=5)
 
     def tracer(self):
         def local(frame, event, arg):
@@ -65,6 +84,8 @@ class Sched(object):
             st['go'].acquire()
             sys.settrace(self.tracer())
             try:
+                if self.abandoned:
+                    raise Abandoned()
                 st['result'] = fn()
             except BaseException as e:      # noqa: recorded and reported by the checker
                 st['exc'] = e
@@ -93,7 +114,9 @@ class Sched(object):
             if not en:
                 if all(st['done'] for st in self.threads.values()):
                     return
-                raise Deadlock([(t, s['blocked'], s['line']) for t, s in self.threads.items() if not s['done']])
+                info = [(t, s['blocked'], s['line']) for t, s in self.threads.items() if not s['done']]
+                self.abandon()
+                raise Deadlock(info)
             dflt = en.index(self.last) if self.last in en else 0
             if len(en) > 1:
                 if step < len(self.schedule):
